@@ -17,7 +17,7 @@ import (
 // C06 — close handshake carries code and reason both ways and closes for good.
 
 func init() {
-	register(&Prop{ID: "C06", Run: runC06, Enum: enumC06, Quick: 12000, Thorough: 100000, Level: "exploration",
+	register(&Prop{ID: "C06", Run: runC06, Enum: enumC06, Quick: 12000, Thorough: 400000, Level: "exploration",
 		Exhaustive: "scenario (a) library-initiated Close: all status codes 0..65535 plus -1, 65536, 1<<20 x both roles (thorough); boundary codes x reason lengths (quick)"})
 }
 
